@@ -17,7 +17,8 @@ import c07_keys
 
 PID = "C07"
 THEOREMS = ["hab_layout_roundtrip", "ivt_pointers_resolve", "segments_do_not_collide", "signed_blocks_cover",
-            "cms_obligations_ranges", "csf_offsets_resolve", "ccm_restores_app", "dcd_roundtrip", "xmcd_roundtrip"]
+            "cms_obligations_ranges", "csf_offsets_resolve", "ccm_restores_app", "dcd_roundtrip", "xmcd_roundtrip",
+            "update_csf_repeatable"]
 WORKDIR = os.path.join(vlib.WORK, "C07", "scratch")     # .work/C07/proposed_fix_*.diff are kept
 RUN = os.path.join(WORKDIR, "run")
 ENGINES = {"ANY": 0, "CAAM": 0x1D, "DCP": 0x1B, "SW": 0xFF, "SNVS": 0x1E, "OCOTP": 0x21}
@@ -445,9 +446,14 @@ def gen_cases(tier, rng, pki, db):
             c["nonce"] = bytes(rng.getrandbits(8) for _ in range(rng.choice([13, 12, 11]))) if rng.random() < 0.5 else None
         add(c)
     # 6. history: update_csf() called a second time on the same object, then export
-    for mode in ("auth", "enc", "plain"):
-        c = base_case(rng, mode, why="history: second update_csf")
-        set_keys(c, pki, rng, keyset="rsa2048")
+    for mode, ks in [("auth", "rsa2048"), ("enc", "rsa2048"), ("plain", "rsa2048"), ("fast", "rsa2048"), ("auth", "p256"), ("enc", "p384"),
+                     ("enc", "rsa3072"), ("auth", "rsa4096")] * (3 if thorough else 1):
+        c = base_case(rng, mode, why="history: repeated update_csf")
+        set_keys(c, pki, rng, keyset=ks)
+        if rng.random() < 0.5:
+            c["dcd"] = mk_dcd(rng, "small")
+        elif rng.random() < 0.5:
+            c["xmcd"] = enc_xmcd(rng.randrange(2), rng.randrange(16), 0, bytes(4))
         if mode == "enc":
             c["dek"] = bytes(rng.getrandbits(8) for _ in range(16))
         c["ops"] = ["build", "parse", "update_twice"]
@@ -929,7 +935,7 @@ def run(tier):
 
 def _run(rep, rng, tier):
     model_ok, mlog = vlib.coq_make(["Model/HabModel.vo"])
-    vlib.check_theorems(rep, PID, THEOREMS, ["Proofs/HabProofs.vo", "Proofs/HabDcdProofs.vo"])
+    vlib.check_theorems(rep, PID, THEOREMS, ["Proofs/HabProofs.vo", "Proofs/HabDcdProofs.vo", "Proofs/HabHistProofs.vo"])
     if tier == "thorough":
         vlib.coqchk(rep, PID, THEOREMS)
     vlib.audit(rep)
@@ -990,13 +996,19 @@ def _run(rep, rng, tier):
                 if u[0] != "ok":
                     hits.append((f"history:second-update_csf-{c['mode']}", f"update_csf() called again raises {u[1:]}"))
                 else:
-                    img3 = bytes.fromhex(u[1])
-                    if img3 != image:
-                        sub = [h for h in oracle_image(c, img3, pki, dek, None)]
-                        if sub or c["flags"] == 0:
+                    for k, hx in enumerate(u[1], 2):
+                        imgk = bytes.fromhex(hx)
+                        c.setdefault("history", []).append(imgk)
+                        if imgk == image:
+                            continue
+                        # ECDSA signatures are randomised: the image may differ in the signature objects only, and must still
+                        # satisfy every oracle; RSA PKCS#1 v1.5 and plain / encrypted content are deterministic
+                        sub = list(oracle_image(c, imgk, pki, dek, None))
+                        if sub or c["flags"] == 0 or c["keyset"].startswith("rsa"):
                             hits.append((f"history:second-update_csf-{c['mode']}",
-                                         "after a second update_csf() the exported image differs and no longer satisfies the property: "
-                                         + (sub[0][1] if sub else "image changed")))
+                                         f"after update_csf() number {k} the exported image differs from the first export"
+                                         + (": " + sub[0][1] if sub else "")))
+                            break
             for sig, msg in hits:
                 rep.failing(sig, f"[{c['why']}] {msg}", {"kind": "impl-oracle", "case": rec, "oracle": sig})
             nontrivial[c["id"]] = not hits
@@ -1014,6 +1026,12 @@ def _run(rep, rng, tier):
     for t in fuse_of:
         exprs.append(model_expr(4, [VB(t)]))
         expr_owner.append((t, 4))
+    # history: the model after k further update_csf() calls (deterministic signers only)
+    for c in cases:
+        if c.get("history") and c["flags"] & 8 and c["keyset"].startswith("rsa"):
+            for k in (1, 2):
+                exprs.append(model_expr(7, [VI(k)] + model_args(c, pki, c["sigs"][0], c["sigs"][1], c["dek_used"])))
+                expr_owner.append(((c["id"], k), 7))
     # correspondence
     ndis = 0
     vlib.log(f"  oracles done at {time.time() - rep.t0:.0f} s; openssl cms calls {_cms_n[0]}")
@@ -1025,6 +1043,14 @@ def _run(rep, rng, tier):
             vlib.log(f"  model: {len(exprs)} evaluations in {time.time() - t_model:.0f} s")
             pairs = []
             for (cid, fn), mv in zip(expr_owner, mres):
+                if fn == 7:
+                    compared["history"] = compared.get("history", 0) + 1
+                    hc, k = cid
+                    if mv[0] != "l" or unrle(mv) != cases[hc]["history"][k - 1]:
+                        ndis += 1
+                        vlib.log(f"  disagreement history case {hc}: image after update_csf() number {k + 1} differs from the model")
+                        rep.broken.append("correspondence:history") if "correspondence:history" not in rep.broken else None
+                    continue
                 if fn == 4:
                     compared["fuses"] = compared.get("fuses", 0) + 1
                     if mv[0] != "b" or mv[1].hex() != fuse_of[cid]:
@@ -1116,7 +1142,7 @@ def _run(rep, rng, tier):
                       "openssl 3.0 CLI `cms -verify` and python-cryptography (AESCCM, RSA/ECDSA verify) as independent oracles",
                       "CMS / X.509 DER, RSA / ECDSA are outside Coq: signatures are obligations (inputs) of the model",
                       "AES block cipher: ccm_restores_app is parametric in the block cipher (length-preserving)"],
-        checker_cmd="coqc -R . V Props/C07/*.v (after make Proofs/HabProofs.vo Proofs/HabDcdProofs.vo)",
+        checker_cmd="coqc -R . V Props/C07/*.v (after make Proofs/HabProofs.vo Proofs/HabDcdProofs.vo Proofs/HabHistProofs.vo)",
         assumptions=["application images are raw .bin files (ELF/SREC/HEX loading is C16)",
                      "SRK tables are canonical (as produced from certificates); their re-encoding by SrkTable.parse/export is not modelled",
                      "the re-sign loop of CsfHabSegment.update_signature is not modelled: the model takes the final CSF signature "
